@@ -656,6 +656,9 @@ pub fn run(c: &[S]) -> S {
             let vs = BddVariableSet::from(d_names(&a[1]));
             e_hex(d_bdd(&a[0]).to_dot_string(&vs, d_bool(&a[2])).as_bytes())
         }
-        _ => panic!("harness: unknown op {}", op),
+        _ => match crate::areas::run_areas(c) {
+            Some(r) => r,
+            None => panic!("harness: unknown op {}", op),
+        },
     }
 }
